@@ -569,7 +569,7 @@ func main() {
 	maxExec := int64(3000)
 	if run.Thorough() {
 		bound = 1
-		maxExec = 60000
+		maxExec = 15000
 	}
 	if run.Replay != "" {
 		b, _ := os.ReadFile(run.Replay)
@@ -621,7 +621,7 @@ func main() {
 			mx = maxExec / 75
 		}
 		if i >= nFirst {
-			r := vx.ExploreItem(sc, dbound, vx.Config{MaxExec: mx * 10, Delay: true})
+			r := vx.ExploreItem(sc, dbound, vx.Config{MaxExec: mx * 4, Delay: true})
 			r.Name = "delay:" + r.Name
 			return r
 		}
